@@ -5,7 +5,8 @@ import z3
 
 def parse_table(src):
     entries = []
-    for line in src.splitlines():
+    # text-mode reading: \r\n and \r become \n; nothing else ends a line (U+000B, U+000C, U+001C-1E, U+0085 ... do not)
+    for line in src.replace("\r\n", "\n").replace("\r", "\n").split("\n"):
         if "=" not in line:
             continue
         left, text = line.split("=", 1)
